@@ -220,11 +220,12 @@ func withSchedule(o *sched.Outcome) sched.Scenario {
 }
 
 func watchGen(r *gen.R, idx int) []run.Case {
+	var extra []run.Case
 	if os.Getenv("VERIF_TIER") == "thorough" {
-		return watchThorough()
+		extra = watchThorough() // once per process
 	}
 	sc, ch := genWatchScenario(r)
-	return []run.Case{watchCase(sc, ch)}
+	return append(extra, watchCase(sc, ch))
 }
 
 var watchThoroughOnce sync.Once
@@ -233,11 +234,13 @@ var watchThoroughOnce sync.Once
 func watchThorough() []run.Case {
 	var out []run.Case
 	watchThoroughOnce.Do(func() {
-		budget := 4000
+		budget := 1500
 		if b := os.Getenv("VERIF_DFS_BUDGET"); b != "" {
 			fmt.Sscanf(b, "%d", &budget)
 		}
-		w := func(scope, start string) sched.Op { return sched.Op{Kind: "watch", Stream: 1, Scope: scope, Start: start} }
+		w := func(scope, start string) sched.Op {
+			return sched.Op{Kind: "watch", Stream: 1, Scope: scope, Start: start}
+		}
 		nx, tn := sched.Op{Kind: "next", Stream: 1}, sched.Op{Kind: "trynext", Stream: 1}
 		tiny := []sched.Scenario{
 			{Kind: "deliver", Watch: true, Actors: [][]sched.Op{{w("client", ""), nx}, {{Kind: "ins"}}}},
